@@ -211,6 +211,12 @@ func (lex *Lexer) Reset() {
 	lex.priorRune = [20]rune{}
 }
 
+// pendingAtEnd reports whether the lexer holds the beginning of a token
+// that only a terminating rune would complete.
+func (lex *Lexer) pendingAtEnd() bool {
+	return lex.buffer.Len() > 0 || lex.state != LexerNormal
+}
+
 func (lex *Lexer) EmptyToken() Token {
 	return Token{}
 }
